@@ -124,6 +124,7 @@ fn mix_one(b: &dyn crate::fhe::BackendOps, op: &str, shape: &crate::c12::ops::Sh
 fn run_mix(r: &Run, spec: &MixSpec, cfg: Option<Config>) -> (Result<RunOut, String>, Option<Report>) {
     let b = backend(&r.backend);
     let lists = spec.lists(&r.backend);
+    let state0 = b.module_state(spec.n);
     let mut results: Vec<Vec<u64>> = vec![Vec::new(); spec.threads];
     let (res, rep) = match cfg {
         None => {
@@ -174,7 +175,7 @@ fn run_mix(r: &Run, spec: &MixSpec, cfg: Option<Config>) -> (Result<RunOut, Stri
             window_len: 0,
             canary_ok: true,
             inputs_unchanged: true,
-            module_fingerprint_same: true,
+            module_fingerprint_same: b.module_state(spec.n) == state0,
             items: spec.threads,
         }),
         rep,
@@ -549,6 +550,14 @@ pub fn execute(r: &Run) -> Result<Outcome, String> {
                         }
                     }
                 }
+            }
+            if v.is_none() && (!reference.inputs_unchanged || !reference.module_fingerprint_same) {
+                // state that is filled lazily changes during whichever run comes first - the reference
+                v = Some((
+                    "RO".into(),
+                    if reference.inputs_unchanged { "module_changed" } else { "inputs_changed" }.into(),
+                    "shared read-only state (inputs / prepared keys / module value or handle) changed during the single-threaded reference call".into(),
+                ));
             }
             if v.is_none() && (!out.inputs_unchanged || !out.module_fingerprint_same) {
                 v = Some((
